@@ -1531,6 +1531,7 @@ func runC38(c *Ctx) error {
 		return c38Child(c)
 	}
 	c.Setup("Blocking CorrC38", "run_case")
+	runC38SubscribeBacklog(c)
 	plans := c38Plans(c)
 	runs := make([]c38Run, len(plans))
 	par := 4
